@@ -665,6 +665,16 @@ func (c *ShadowCase) Exec(t *eng.T) {
 			want = "W"
 		}
 	}
+	if c.Mask&16 != 0 {
+		// the name is a macro parameter the caller omits: inside the macro it is empty, whatever the context holds
+		src = "{% macro mm(x) %}[" + src + "]{% endmacro %}{{ mm() }}"
+		want = "[]"
+		if c.Mask&8 != 0 {
+			want = "[S]"
+		} else if c.Mask&4 != 0 {
+			want = "[W]"
+		}
+	}
 	ctx["y"] = map[string]any{"v": "S"}
 	ctx["z"] = map[string]any{"v": "W"}
 	out := px.RenderIn(set, src, ctx)
@@ -770,8 +780,8 @@ func run(r *eng.Runner) {
 		}
 	}
 
-	r.Group("shadowing", "c08.shadow", "the same name in globals / caller context / tag scope (with) / tag scope (set): all 16 presence combinations")
-	for m := 0; m < 16; m++ {
+	r.Group("shadowing", "c08.shadow", "the same name in globals / caller context / tag scope (with) / tag scope (set) / an omitted macro parameter: all 32 presence combinations")
+	for m := 0; m < 32; m++ {
 		r.Do(&ShadowCase{Mask: m})
 	}
 	_ = sort.Strings
